@@ -39,6 +39,9 @@ Distinct(s) == \A i, j \in 1..Len(s) : i /= j => s[i] /= s[j]
 
 IsPrefix(p, k) == Len(p) <= Len(k) /\ \A i \in 1..Len(p) : p[i] = k[i]
 
+(* the key index without the entries that point at the given (re-issued) ids *)
+Unkey(ids) == [k \in { k \in DOMAIN bykey : bykey[k] \notin ids } |-> bykey[k]]
+
 BSInit == live = Empty /\ issued = {} /\ keyof = Empty /\ bykey = Empty
 
 NoKeys == UNCHANGED <<keyof, bykey>>
@@ -51,7 +54,7 @@ Put(d, id) == /\ id \notin Live
               /\ live' = Ext(live, id, d)
               /\ issued' = issued \cup {id}
               /\ keyof' = Drop(keyof, id)
-              /\ UNCHANGED bykey
+              /\ bykey' = Unkey({id})
 (* put(d) -> Err: refused, nothing changes *)
 PutRefused(d) == Same
 
@@ -63,7 +66,7 @@ PutBatch(ds, ids) ==
     /\ live' = [x \in Live \cup RangeOf(ids) |-> IF x \in RangeOf(ids) THEN ds[PosOf(ids, x)] ELSE live[x]]
     /\ issued' = issued \cup RangeOf(ids)
     /\ keyof' = [x \in DOMAIN keyof \ RangeOf(ids) |-> keyof[x]]
-    /\ UNCHANGED bykey
+    /\ bykey' = Unkey(RangeOf(ids))
 PutBatchRefused(ds) == Same
 
 (* remove(id) -> Ok: the record is gone (removing an absent id successfully is a no-op) *)
@@ -94,6 +97,19 @@ BuildFrom(ds) == /\ live' = [i \in 0..(Len(ds) - 1) |-> ds[i + 1]]
                  /\ issued' = 0..(Len(ds) - 1)
                  /\ keyof' = Empty /\ bykey' = Empty
 BuildRefused(ds) == Same
+(* a store built from an explicit id -> record map (MemoryBlobStore::from_data): record i under ids[i] *)
+BuildAt(ids, ds) == /\ Len(ids) = Len(ds) /\ Distinct(ids)
+                    /\ live' = [x \in RangeOf(ids) |-> ds[PosOf(ids, x)]]
+                    /\ issued' = RangeOf(ids)
+                    /\ keyof' = Empty /\ bykey' = Empty
+(* a keyed bulk build (builder add(key, data) ... finish, build_from_key_value_pairs, build_from_<strings>): *)
+(* entry i is stored under id i with key ks[i]; a key given several times reads as its LAST entry          *)
+LastPos(ks, k) == CHOOSE i \in 1..Len(ks) : ks[i] = k /\ \A j \in (i + 1)..Len(ks) : ks[j] /= k
+BuildKeyed(ks, ds) == /\ Len(ks) = Len(ds)
+                      /\ live' = [i \in 0..(Len(ds) - 1) |-> ds[i + 1]]
+                      /\ issued' = 0..(Len(ds) - 1)
+                      /\ keyof' = [i \in 0..(Len(ds) - 1) |-> ks[i + 1]]
+                      /\ bykey' = [k \in RangeOf(ks) |-> LastPos(ks, k) - 1]
 
 (* save to bytes -> load (or close -> reopen): the loaded store answers identically *)
 SaveLoad == Same
@@ -103,7 +119,21 @@ PutWithKey(k, d, id) == /\ id \notin Live
                         /\ live' = Ext(live, id, d)
                         /\ issued' = issued \cup {id}
                         /\ keyof' = Ext(keyof, id, k)
-                        /\ bykey' = Ext(bykey, k, id)
+                        /\ bykey' = [x \in DOMAIN Unkey({id}) \cup {k} |-> IF x = k THEN id ELSE bykey[x]]
+
+(* put_batch_with_keys(<<k, d>> ...) -> Ok(ids) = the sequence of put_with_key calls *)
+PutBatchWithKeys(ks, ds, ids) ==
+    /\ Len(ids) = Len(ds) /\ Len(ks) = Len(ds)
+    /\ Distinct(ids)
+    /\ RangeOf(ids) \cap Live = {}
+    /\ live' = [x \in Live \cup RangeOf(ids) |-> IF x \in RangeOf(ids) THEN ds[PosOf(ids, x)] ELSE live[x]]
+    /\ issued' = issued \cup RangeOf(ids)
+    /\ keyof' = [x \in DOMAIN keyof \cup RangeOf(ids) |-> IF x \in RangeOf(ids) THEN ks[PosOf(ids, x)] ELSE keyof[x]]
+    /\ bykey' = [k \in DOMAIN Unkey(RangeOf(ids)) \cup RangeOf(ks) |-> IF k \in RangeOf(ks) THEN ids[LastPos(ks, k)] ELSE bykey[k]]
+
+(* a maintenance call (reserve, shrink_to_fit, optimize, flush, prefetch, cache on/off, write strategy, *)
+(* finalize, offset cache ...) whatever it returns must not change what the store holds                *)
+Maintenance == Same
 
 (* ----------------------------------------------------------------- observers *)
 (* state predicates: the answers the property allows in the current state       *)
@@ -144,7 +174,26 @@ GetBatchOk(ids, ok, r) ==
 (* iter_ids() -> the live ids, each exactly once, nothing else *)
 IterIdsOk(r) == Len(r) = Cardinality(Live) /\ RangeOf(r) = Live
 
+(* iter_blobs() / iter_blobs_vec() -> <<id, record>> pairs: every live record exactly once with  *)
+(* exactly its bytes; r[i] = [ok, id, d]; a failing item or a failing call is a failed read of a   *)
+(* live record and is not accepted                                                               *)
+IterBlobsOk(ok, r) == /\ ok
+                      /\ Len(r) = Cardinality(Live)
+                      /\ { r[i].id : i \in 1..Len(r) } = Live
+                      /\ \A i \in 1..Len(r) : r[i].ok /\ (r[i].id \in Live => r[i].d = live[r[i].id])
+(* keys() / keys_with_prefix(p): exactly the keys (with that prefix) whose latest record is live *)
+KeysOk(p, ok, r) == ok => Len(r) = Cardinality(PrefixSet(p)) /\ RangeOf(r) = PrefixSet(p)
+(* MixedLenBlobStore shape observers: fixed_len() f, fixed_count(), variable_count(), is_fixed_length(id) *)
+MixedShapeOk(f, nf, nv, ids, isf) ==
+    /\ nf = Cardinality({ id \in Live : live[id].len = f })
+    /\ nv = Cardinality(Live) - nf
+    /\ Len(isf) = Len(ids)
+    /\ \A i \in 1..Len(ids) : isf[i] = (IsLive(ids[i]) /\ live[ids[i]].len = f)
+
 Get(id, ok, d) == GetOk(id, ok, d) /\ Same
+IterBlobs(ok, r) == IterBlobsOk(ok, r) /\ Same
+ListKeys(p, ok, r) == KeysOk(p, ok, r) /\ Same
+MixedShape(f, nf, nv, ids, isf) == MixedShapeOk(f, nf, nv, ids, isf) /\ Same
 GetBatch(ids, ok, r) == GetBatchOk(ids, ok, r) /\ Same
 IterIds(r) == IterIdsOk(r) /\ Same
 Contains(id, r) == ContainsOk(id, r) /\ Same
